@@ -186,6 +186,8 @@ func VerifH_LRUStep() {
 // C04/H1b: a second operation after the first (two-step histories from an arbitrary state).
 func VerifH_LRUTwoSets() {
 	c, id := verifBuild()
+	var keptGot [][]interface{}
+	var keptWant [][]verifItem
 	for step := 0; step < 2; step++ {
 		k := symx.Int("opKey")
 		v := verifItem{size: 1, tag: symx.Int("opTag")}
@@ -200,8 +202,14 @@ func VerifH_LRUTwoSets() {
 			}
 		} else {
 			got := c.SetAndGetRemoved(k, v)
-			verifSameItems(got, id.set(k, v), "SetAndGetRemoved")
+			want := id.set(k, v)
+			verifSameItems(got, want, "SetAndGetRemoved")
+			keptGot, keptWant = append(keptGot, got), append(keptWant, want)
 		}
+	}
+	// the lists handed out are the caller's: a later operation does not change what an earlier call reported
+	for i := range keptGot {
+		verifSameItems(keptGot[i], keptWant[i], "SetAndGetRemoved (looked at again after the later operation)")
 	}
 	verifCompare(c, id)
 	symx.Reach("end")
